@@ -67,7 +67,10 @@ namespace svmon
     size_t n, total;
     SrcArr (size_t n_, int v0, bool guard) : n (n_), total (n_ + (guard ? 1 : 0))
     {
-      p = static_cast<E *> (std::malloc (total ? total * sizeof (E) : 1));
+      void *m = 0;
+      if (alignof (E) > 16) { if (posix_memalign (&m, alignof (E), total ? total * sizeof (E) : alignof (E))) m = 0; }
+      else m = std::malloc (total ? total * sizeof (E) : 1);
+      p = static_cast<E *> (m);
       for (size_t i = 0; i < n; ++i) ::new (static_cast<void *> (p + i)) E (make_elem (v0 + static_cast<int> (i), static_cast<E *> (0)));
       if (guard) ::new (static_cast<void *> (p + n)) E (make_elem (-999, static_cast<E *> (0)));
     }
